@@ -230,3 +230,185 @@ def rank_is(A, r):
     lo = True if r == 0 else Or(*[Not(SP.eqz(m)) for m in _minors(A, r)])
     hi = True if r == min(R, C) else And(*[SP.eqz(m) for m in _minors(A, r + 1)])
     return And(lo, hi)
+
+
+# ---------------------------------------------------------------------------
+# contract of solve() (established by props/C16) as a stub for its callers
+# ---------------------------------------------------------------------------
+
+def _sys_holds(m0, x):
+    n = len(m0[0]) - 1
+    return And(*[SP.eq(sum(m0[i][j] * x[j] for j in range(n)), m0[i][n]) for i in range(len(m0))])
+
+
+def free_values_appear(x, free):
+    """the given free values appear, in order, among the components of x"""
+    import itertools
+    if not free:
+        return True
+    return Or(*[And(*[SP.eq(x[j], f) for j, f in zip(idx, free)]) for idx in itertools.combinations(range(len(x)), len(free))])
+
+
+class SolutionStub(object):
+    """what a caller may assume about the object returned by solve(m):
+    truthy <=> the system is consistent; a call with k values requires a
+    consistent system with unknowns - rank(A) = k and returns a tuple that
+    satisfies every equation and contains the given values in order."""
+
+    def __init__(self, vc, m0):
+        self.vc, self.m0 = vc, m0
+        self.N = len(m0[0]) - 1
+        self.c = vc.fresh("consistent", "bool")
+        self.solutions = []
+        # truthy => some solution exists (skolem witness); falsy => none does (universal clause, see no_solution_at)
+        self.x0 = [vc.fresh("sol0") for _ in range(self.N)]
+        vc.assume(Implies(self.c, _sys_holds(self.m0, self.x0)), "solve contract: truthy => a solution exists")
+        vc.solve_stubs = getattr(vc, "solve_stubs", []) + [self]
+
+    def __bool__(self):
+        return self.vc.branch(self.c)
+
+    __nonzero__ = __bool__
+
+    def __call__(self, *v):
+        vc = self.vc
+        A = [r[: self.N] for r in self.m0]
+        vc.oblige("solve contract: solution() is only called on a consistent system", self.c)
+        vc.oblige("solve contract: %d free values given = unknowns - rank(A)" % len(v), rank_is(A, self.N - len(v)))
+        x = [vc.fresh("sol") for _ in range(self.N)]
+        vc.assume(_sys_holds(self.m0, x), "solve contract: the result satisfies every equation")
+        vc.assume(free_values_appear(x, [Sym(f) for f in v]), "solve contract: free values appear in order")
+        self.solutions.append(x)
+        return tuple(x)
+
+    def no_solution_at(self, w):
+        """instance of the universal clause: falsy => w is not a solution"""
+        return Implies(Not(self.c), Not(_sys_holds(self.m0, w)))
+
+    def consistent_at(self, w):
+        """truthy <= w solves the system"""
+        return Implies(_sys_holds(self.m0, w), self.c)
+
+
+def x_solve(matrix):
+    vc = S.engine()
+    vc.hit("solve")
+    m0 = [[Sym(v) for v in row] for row in matrix]
+    return SolutionStub(vc, m0)
+
+
+T_SOLVE = "Geometry3D.utils.solver:solve"
+
+
+# ---------------------------------------------------------------------------
+# vector-level callee contracts carrying the consequences callers need
+# ---------------------------------------------------------------------------
+
+def x_normalized(self):
+    """Vector.normalized: requires v != 0 (else ZeroDivisionError);
+    ensures result = k*v with k > 0 and k^2 |v|^2 = 1 (proved in props/C18)"""
+    g = G()
+    vc = S.engine()
+    vc.hit("Vector.normalized")
+    v = SP.vec(self)
+    if "Vector.normalized" in vc.on_call:
+        vc.on_call["Vector.normalized"](self)
+    n2 = SP.norm2(v)
+    if vc.branch(F(SP.vzero(v))):
+        raise ZeroDivisionError("float division by zero (normalized zero vector)")
+    k = vc.fresh("k")
+    vc.assume(k > 0, "normalized contract: k > 0")
+    vc.assume(k * k * n2 == 1, "normalized contract: unit length")
+    r = g.Vector(*[k * c for c in v])
+    vc.record("normalized", (k, v, SP.vec(r)))
+    return r
+
+
+def x_length(self):
+    """Vector.length: r >= 0, r^2 = v.v (proved in props/C18)"""
+    vc = S.engine()
+    vc.hit("Vector.length")
+    return vc.sqrt(Sym(SP.norm2(SP.vec(self))), complex_on_negative=True)
+
+
+T_NORMALIZED = "Geometry3D.utils.vector:Vector.normalized"
+T_LENGTH = "Geometry3D.utils.vector:Vector.length"
+
+
+def x_inter_line_plane(l, p):
+    """COORD-world contract of inter_line_plane (proved in props/C01):
+    None  => l parallel to p and not in it;  Line => l itself, l in p;
+    Point => l not parallel to p, the point is sv + mu*dv and lies in p"""
+    g = G()
+    vc = S.engine()
+    vc.hit("inter_line_plane")
+    if "inter_line_plane" in vc.on_call:
+        vc.on_call["inter_line_plane"](l, p)
+    sv, dv, pp, n = SP.vec(l.sv), SP.vec(l.dv), SP.vec(p.p), SP.vec(p.n)
+    dn = SP.dot(dv, n)
+    k = vc.choose(3, "inter_line_plane")
+    if k == 0:
+        vc.assume(And(dn == 0, Not(SP.on_plane(sv, pp, n))), "inter_line_plane contract: None")
+        vc.prune()
+        return None
+    if k == 1:
+        vc.assume(And(dn == 0, SP.on_plane(sv, pp, n)), "inter_line_plane contract: Line")
+        vc.prune()
+        return l
+    mu = vc.fresh("mu")
+    q = SP.add(sv, SP.scale(mu, dv))
+    vc.assume(Not(dn == 0), "inter_line_plane contract: Point => not parallel")
+    vc.assume(SP.on_plane(q, pp, n), "inter_line_plane contract: Point on the plane")
+    vc.record("inter_line_plane", (mu, q))
+    return g.Point(*q)
+
+
+T_ILP = "Geometry3D.calc.intersection:inter_line_plane"
+
+
+def x_segment_contains_point(self, other):
+    g = G()
+    if isinstance(other, g.Point):
+        vc = S.engine()
+        vc.hit("Segment.__contains__")
+        vc.admit(True, "Point in Segment: on the carrier exactly or off by the parallel-test margin; relative parameter in [0,1] exactly or outside by > 4 eps; |x-start| = 0 or >= 4 eps", add=False)
+        return SymBool(SP.on_segment(SP.vec(other), SP.vec(self.start_point), SP.vec(self.end_point)))
+    return ORIG["Segment.__contains__"](self, other)
+
+
+def x_halfline_contains_point(self, other):
+    g = G()
+    if isinstance(other, g.Point):
+        vc = S.engine()
+        vc.hit("HalfLine.__contains__")
+        vc.admit(True, "Point in HalfLine: on the carrier exactly or off by the parallel-test margin; (x-p).v >= 0 exactly or <= -4 eps", add=False)
+        return SymBool(SP.on_halfline(SP.vec(other), SP.vec(self.point), SP.vec(self.vector)))
+    return ORIG["HalfLine.__contains__"](self, other)
+
+
+def x_point_hash(self):
+    """A4: sets of symbolic points deduplicate by == alone"""
+    return 0
+
+
+T_SEG_IN = "Geometry3D.geometry.segment:Segment.__contains__"
+T_HL_IN = "Geometry3D.geometry.halfline:HalfLine.__contains__"
+T_PHASH = "Geometry3D.geometry.point:Point.__hash__"
+
+
+def flat_member(x, o):
+    """denotation: the point x (3-tuple) belongs to the flat object o (None = empty set)"""
+    g = G()
+    if o is None:
+        return False
+    if isinstance(o, g.Point):
+        return SP.veq(x, SP.vec(o))
+    if isinstance(o, g.Segment):
+        return SP.on_segment(x, SP.vec(o.start_point), SP.vec(o.end_point))
+    if isinstance(o, g.HalfLine):
+        return SP.on_halfline(x, SP.vec(o.point), SP.vec(o.vector))
+    if isinstance(o, g.Line):
+        return SP.on_line(x, SP.vec(o.sv), SP.vec(o.dv))
+    if isinstance(o, g.Plane):
+        return SP.on_plane(x, SP.vec(o.p), SP.vec(o.n))
+    raise TypeError("no flat denotation for %r" % (type(o),))
